@@ -47,9 +47,18 @@ inductive ReadErr where
   | notSorted
   /-- `PloidyError` (more than `MAX_PLOIDY` alleles, or two fully called genotypes of different length) -/
   | ploidy
+  /-- `RuntimeError` of the `Genotype` constructor ("Maximum ploidy for genotype exceeded"): it refuses `MAX_PLOIDY`
+      alleles, which the `PloidyError` test (`> MAX_PLOIDY`) still lets through -/
+  | runtime
 deriving DecidableEq, Repr
 
 def maxPloidy : Nat := 15
+
+/-- `genotype_code` of some call of the record raises: a fully called genotype with `MAX_PLOIDY` or more alleles -/
+def genotypeTooLong (calls : List (String × Call)) : Bool :=
+  calls.any fun nc => match nc.2.gt with
+    | some g => g.all Option.isSome && decide (g.length ≥ maxPloidy)
+    | none => false
 
 /-- the ploidy check over the calls of one kept record; `pl` = `self.ploidy` -/
 def ploidyStep : Option Nat → List (String × Call) → Except ReadErr (Option Nat)
@@ -88,6 +97,7 @@ def readerRows (onlySnvs : Bool) : Option Nat → Option Nat → List Record →
       match ploidyStep pl r.calls with
       | .error e => .error e
       | .ok pl1 =>
+        if genotypeTooLong r.calls then .error .runtime else
         match readerRows onlySnvs (some r.pos) pl1 rs with
         | .ok (f, pl') => .ok (true :: f, pl')
         | .error e => .error e
